@@ -208,7 +208,8 @@ def main():
         else:
             new.setdefault(v["key"], v)
 
-    rdir = os.path.join(HERE, "replays", pid)
+    scratch = core.REPO != "/repo"      # self-validation against a scratch copy never touches committed evidence
+    rdir = os.path.join(HERE, ".work", "scratch-replays", pid) if scratch else os.path.join(HERE, "replays", pid)
     lines = []
     if new:
         os.makedirs(rdir, exist_ok=True)
@@ -268,8 +269,9 @@ def main():
         "wall_s": round(wall, 2),
         "violations": len(new),
     }
-    os.makedirs(os.path.join(HERE, "evidence"), exist_ok=True)
-    with open(os.path.join(HERE, "evidence", f"{pid}.json"), "w") as f:
+    evdir = os.path.join(HERE, ".work", "scratch-evidence") if scratch else os.path.join(HERE, "evidence")
+    os.makedirs(evdir, exist_ok=True)
+    with open(os.path.join(evdir, f"{pid}.json"), "w") as f:
         json.dump(ev, f, indent=1, default=repr)
 
     print(f"[{pid} {a.tier} seed={seed}] cases={evaluations} distinct_nontrivial={len(nontrivial)} "
